@@ -206,7 +206,7 @@ def _run(ex: Executor, w: World, src: FunctionSource, contract: Contract, res: F
             finals.append(o)
         else:
             raise Unsupported(f"{o.kind} outside loop")
-    if not os.environ.get("PYVC_SPLIT_OUTCOMES") and len(finals) > 2:
+    if not os.environ.get("PYVC_SPLIT_OUTCOMES") and contract.join_outcomes and len(finals) > 2:
         # one obligation set per kind of exit: all returns joined, all raises joined (PYVC_SPLIT_OUTCOMES=1 keeps the sites apart)
         merged = []
         groups = [[o for o in finals if o.kind == "return"]]
